@@ -66,10 +66,31 @@ AvDispatchBase(F) ==
   ELSE IF F.bases_any = {} THEN {NoI}
   ELSE {I("DispatchBase", b, "") : b \in F.bases_near} \cup (IF F.bases_must THEN {} ELSE {NoI})
 
+(* ----- the station the NEAREST_SHORTEST_QUEUE search picks (instruct_vehicles_to_dispatch_to_station, H3Ops.nearest_entity, *)
+(* assignment_ops.nearest_shortest_queue_ranking).  cands: the stations the vehicle may use that have a usable on-shift   *)
+(* plug: [id, k, ord, plugs], plugs: [id, ir, num, den] with metric = num / den = grid distance * (1 + waiting/installed) *)
+MLess(a, b) == a.num * b.den < b.num * a.den
+MEq(a, b) == a.num * b.den = b.num * a.den
+\* the ranking keeps the previous plug only when it is STRICTLY better: among equals the last plug id wins
+BestPlug(plugs) ==
+  CHOOSE i \in DOMAIN plugs : \A j \in DOMAIN plugs :
+     MLess(plugs[i], plugs[j]) \/ (MEq(plugs[i], plugs[j]) /\ plugs[i].ir >= plugs[j].ir)
+\* the ring search stops at the smallest disk that holds a candidate and keeps the first of the best ones it meets
+ChosenStation(cands) ==
+  LET C == {cands[i] : i \in DOMAIN cands}
+      kmin == CHOOSE k \in {c.k : c \in C} : \A c \in C : k <= c.k
+      ring == {c \in C : c.k = kmin}
+      m(c) == c.plugs[BestPlug(c.plugs)]
+  IN CHOOSE c \in ring : \A d \in ring : MLess(m(c), m(d)) \/ (MEq(m(c), m(d)) /\ c.ord <= d.ord)
+StationChoice(cands) ==
+  IF cands = <<>> THEN NoI
+  ELSE LET c == ChosenStation(cands) IN I("DispatchStation", c.id, c.plugs[BestPlug(c.plugs)].id)
+
 \* the station search of instruct_vehicles_to_dispatch_to_station: some station the vehicle may use, with a plug it can
 \* use; nothing when no such station is known; (which one is ranked by C12-like distance functions, not decided here)
 StationSearch(F) ==
-  {I("DispatchStation", s[1], s[2]) : s \in F.stations} \cup (IF F.stations_must THEN {} ELSE {NoI})
+  IF "choice" \in DOMAIN F THEN {StationChoice(F.choice)}        \* the search type this module knows exactly
+  ELSE {I("DispatchStation", s[1], s[2]) : s \in F.stations} \cup (IF F.stations_must THEN {} ELSE {NoI})
 
 HumanChargeAtHome(F) ==
   IF F.home_st = "" \/ ~F.home_st_ok \/ F.full THEN {NoI}
@@ -197,11 +218,18 @@ AsSet(x) == IF x = <<>> THEN {} ELSE SeqToSet(x)
 \* the logged facts use sequences for sets and may omit the table-only fields
 Norm(f) == [f EXCEPT !.bases_any = AsSet(@), !.bases_near = AsSet(@), !.stations = AsSet(@)]
 
+\* the charging fleet manager sends every vehicle to the station and plug the search picks for it
+CfmSent(e) ==
+  IF "sent" \notin DOMAIN e.cfm THEN {}
+  ELSE {<<"CTL", "charging_fleet_manager", "station_choice", x.v>> :
+          x \in {x \in SeqToSet(e.cfm.sent) : I("DispatchStation", x.tgt, x.plug) # StationChoice(x.choice)}}
+
 StepViolations(e) ==
      {<<"CTL", "driver_policy", d.drv \o "/" \o d.act \o "/" \o d.obs.k, d.v>> :
          d \in {d \in SeqToSet(e.drivers) : ~DriverOK(Norm(d), d.obs)}}
   \cup (IF e.cfm.present
         THEN {<<"CTL", "charging_fleet_manager", x[1], x[2]>> : x \in CfmOK(SeqToSet(e.cfm.veh), AsSet(e.cfm.emitted), e.cfm.complete)}
+             \cup CfmSent(e)
         ELSE {})
 
 Key(v) == <<v[1], v[2], v[3]>>
